@@ -253,6 +253,7 @@ inline int main_impl(int argc,char **argv,Engine &e,const char *engine_name){
 		J out = J::obj(); out["seed"] = (unsigned long long)seed; out["idx"] = (long long)from; out["base"] = (unsigned long long)base; out["engine"] = engine_name; out["property"] = prop;
 		if(r1.ok && r2.ok){ out["status"] = "not-reproduced"; printf("C %s\n",out.str().c_str()); return 2; }
 		if(r1.ok != r2.ok || r1.cls != r2.cls || r1.hash != r2.hash){ out["status"] = "nondeterministic"; out["r1"] = result_json(r1); out["r2"] = result_json(r2); printf("C %s\n",out.str().c_str()); return 2; }
+		if(r1.cls.find("real-time hang") != std::string::npos){ shrink_budget = 4; sched_budget = 0; }   // every attempt costs a full time-out: keep the plan as it is
 		Shrinker sh(e,r1.cls,shrink_budget,shrink_secs);
 		J small = sh.shrink(plan);
 		int sched_before = -1, sched_after = -1;
